@@ -10,8 +10,14 @@ for every potential):
   _Sampler (HMCChain/NUTSChain)  the momentum refresh  mass_matrix_sqrt * xi  has covariance M = inverse_mass_matrix^-1, the
                           inverse Hessian of the kinetic energy actually used; kinetic_energy_gradient == d kinetic_energy / dp
 With the standard Metropolis argument (lemma L-METRO: a reversible, volume-preserving proposal with acceptance min(1, e^-dH) and
-momentum refreshed from exp(-K) leaves exp(-H) invariant) this gives invariance of HMC.  Not decided by any contract: NUTS tree
-building / merging / U-turn logic and 'long chains reproduce the moments' (whole-history probabilistic statements).
+momentum refreshed from exp(-K) leaves exp(-H) invariant) this gives invariance of HMC.
+  merge_trees / add_single_qp_to_tree / is_euclidean_uturn  (NUTS) the local steps of progressive multinomial sampling: the new
+                          candidate replaces the old one with probability w_new / (w_old + w_new) (min(1, w_new / w_old) when biased),
+                          weights add up (logweight == log(w_old + w_new)), the merged tree spans the outer end points, turning is
+                          the U-turn criterion of those end points, depth/divergence/acceptance bookkeeping; for an uninterpreted
+                          potential.  Lemma L-MULTINOMIAL turns these into 'candidate ~ e^-H over the trajectory'.
+Not decided by any contract: the control flow of generate_nuts_tree / iterative_build_tree (which sub-trees are built and checked
+for U-turns in which order) and 'long chains reproduce the moments' (whole-history probabilistic statements).
 """
 import numpy as np
 import sympy as sp
@@ -32,13 +38,16 @@ META = dict(
          "and a two-leaf pytree: one leapfrog step followed by a momentum flip is an involution and has unit Jacobian determinant; "
          "generate_hmc_acc_rej proposes the flipped end point of num_steps (1-3) leapfrog steps and accepts exactly when the uniform "
          "draw is below min(1, exp(H_old - H_new)), rejecting on NaN; the HMC/NUTS sampler classes refresh the momentum with the "
-         "covariance that matches their kinetic energy, whose gradient is the one the integrator uses. NUTS tree logic and the "
-         "chain-moment clause are not decided (see note).",
+         "covariance that matches their kinetic energy, whose gradient is the one the integrator uses. NUTS: merging two trees / adding a "
+         "point selects the new candidate with probability w_new / (w_old + w_new) (biased: min(1, w_new / w_old)), weights add up, the "
+         "merged tree spans the outer ends and its turning flag is the U-turn criterion of those ends. The tree-building control flow "
+         "and the chain-moment clause are not decided (see note).",
     note="Universal in potential, step size, masses, positions and momenta; bounded in dimension (n <= 2, two leaves) and in the number of "
-         "leapfrog steps (<= 3). Invariance of the HMC transition then follows from lemma L-METRO (stated, standard). NUTS "
-         "(generate_nuts_tree, iterative_build_tree, merge_trees, biased progressive sampling, U-turn criterion) and the statistical "
-         "clause 'long chains reproduce the moments' have no per-call contract and are not covered.",
-    explanation="level 'other': symbolic identities on jaxprs for the integrator and the acceptance rule; NUTS and chain statistics not covered",
+         "leapfrog steps (<= 3). Invariance of the HMC transition then follows from lemma L-METRO (stated, standard); the NUTS helper "
+         "contracts give 'candidate ~ e^-H over the trajectory' with lemma L-MULTINOMIAL (stated). The control flow of "
+         "generate_nuts_tree / iterative_build_tree (order of doubling and sub-tree U-turn checks) and the statistical clause 'long "
+         "chains reproduce the moments' have no per-call contract and are not covered.",
+    explanation="level 'other': symbolic identities on jaxprs for the integrator, the acceptance rule and the NUTS merge steps; tree control flow and chain statistics not covered",
 )
 
 
@@ -256,4 +265,152 @@ def sec_sampler(chk):
                    "discharged" if ok else "refuted", backend="sympy", detail=f"{got} vs draws {draws}")
 
 
-SECTIONS = [sec_leapfrog, sec_acc_rej, sec_acc_rej_native, sec_sampler]
+# ------------------------------------------------------------------------------------------------------------ NUTS helpers
+def _sym_tree(hmc, jnp, pref, n, depth, turning=False, diverging=False):
+    ex = hmc.Tree(left=hmc.QP(jnp.ones(n), jnp.ones(n) * .5), right=hmc.QP(jnp.ones(n) * 2, jnp.ones(n) * .3), logweight=jnp.asarray(-1.2),
+                  proposal_candidate=hmc.QP(jnp.ones(n) * 1.5, jnp.ones(n) * .1), turning=jnp.asarray(turning), diverging=jnp.asarray(diverging),
+                  depth=jnp.asarray(depth), cumulative_acceptance=jnp.asarray(0.7))
+    sy = hmc.Tree(left=hmc.QP(symbols((n,), pref + "ql", real=True), symbols((n,), pref + "pl", real=True)),
+                  right=hmc.QP(symbols((n,), pref + "qr", real=True), symbols((n,), pref + "pr", real=True)),
+                  logweight=symbols((), pref + "lw", real=True),
+                  proposal_candidate=hmc.QP(symbols((n,), pref + "qc", real=True), symbols((n,), pref + "pc", real=True)),
+                  turning=np.asarray(turning), diverging=np.asarray(diverging), depth=np.asarray(depth),
+                  cumulative_acceptance=symbols((), pref + "ca", real=True))
+    return ex, sy
+
+
+def _transition_probability(chk, label, pw, u0, new_val, old_val):
+    """pw: the selected candidate entry, Piecewise((new, cond), (old, True)) with cond <=> u0 < P; returns P"""
+    pw = sp.sympify(pw)
+    if not isinstance(pw, sp.Piecewise) or len(pw.args) != 2 or pw.args[0][0] != new_val or pw.args[1][0] != old_val:
+        chk.obligation(f"{label}: the candidate is the new one iff the uniform draw is below the transition probability, the old one otherwise", "refuted", backend="sympy", detail=str(pw)[:300])
+        return None
+    cond = pw.args[0][1]
+    num = [a for a in (cond.lhs, cond.rhs) if a.is_number]
+    oth = [a for a in (cond.lhs, cond.rhs) if not a.is_number]
+    if len(num) != 1 or len(oth) != 1 or not isinstance(cond, (sp.StrictGreaterThan, sp.StrictLessThan)):
+        chk.obligation(f"{label}: the selection predicate compares the uniform draw with the transition probability (strictly)", "undecided", backend="sympy", detail=str(cond)[:300])
+        return None
+    c, e = num[0], oth[0]
+    bigger = (isinstance(cond, sp.StrictGreaterThan) and cond.lhs is e) or (isinstance(cond, sp.StrictLessThan) and cond.rhs is e)      # e > c
+    if not bigger:
+        c, e = -c, -e                                                                                                                  # e < c  <=>  -e > -c
+    ok = abs(float(c) - u0) < 1e-15
+    chk.obligation(f"{label}: the threshold of the selection is the uniform draw of the given key (Bernoulli semantics)", "discharged" if ok else "refuted", backend="native",
+                   detail=f"threshold {float(c)!r}, uniform draw {u0!r}")
+    return e
+
+
+def sec_nuts_helpers(chk):
+    """merge_trees / add_single_qp_to_tree / is_euclidean_uturn: the local steps of multinomial (progressive) sampling over the trajectory"""
+    import jax
+    jax.config.update("jax_enable_x64", True)
+    import jax.numpy as jnp
+    from nifty.re import hmc
+    for f in (hmc.merge_trees, hmc.add_single_qp_to_tree, hmc.is_euclidean_uturn, hmc.count_trailing_ones):
+        chk.under_contract(f)
+    chk.lemma("L-MULTINOMIAL: if every merge keeps the old candidate with probability w_old / (w_old + w_new) (weights e^-H summed over the sub-trajectories), "
+              "the final candidate is distributed as e^-H over the whole trajectory (induction over merges); the biased rule min(1, w_new / w_old) at the top "
+              "level preserves the target as well (Betancourt 2017, A.3.2) -- stated, not mechanised")
+    n = 2
+    w = lambda x: sp.exp(x)      # noqa: E731
+    for seed in (3, 11):
+        key = jax.random.PRNGKey(seed)
+        u0 = float(jax.random.uniform(key, (), dtype=jnp.float64))
+        for turning_c, div_c, div_n in ((False, False, False), (True, True, False), (False, False, True)):
+            ce, cs = _sym_tree(hmc, jnp, "c", n, 1, turning=turning_c, diverging=div_c)
+            ne, ns = _sym_tree(hmc, jnp, "n", n, 1, diverging=div_n)
+            for go_right in (True, False):
+                for bias in (False, True):
+                    lab = f"nuts_helpers: merge_trees(go_right={go_right}, bias_transition={bias}, flags {turning_c}/{div_c}/{div_n}, key {seed})"
+                    out, _ = sym_call(lambda k, a, b: hmc.merge_trees(k, a, b, go_right, bias), (key, ce, ne), (key, cs, ns))
+                    P = _transition_probability(chk, lab, out.proposal_candidate.position[0], u0, ns.proposal_candidate.position[0], cs.proposal_candidate.position[0])
+                    if P is not None:
+                        lwc, lwn = cs.logweight[()], ns.logweight[()]
+                        want = sp.Min(1, w(lwn) / w(lwc)) if bias else w(lwn) / (w(lwc) + w(lwn))
+                        _eq(chk, f"{lab}: P(take the new subtree's candidate) == " + ("min(1, w_new / w_old)" if bias else "w_new / (w_old + w_new)"), [P], [want])
+                        same = all(sp.sympify(e).args[0][1] == sp.sympify(out.proposal_candidate.position[0]).args[0][1]
+                                   for e in list(out.proposal_candidate.position) + list(out.proposal_candidate.momentum))
+                        chk.obligation(f"{lab}: position and momentum of the candidate are selected by the same draw", "discharged" if same else "refuted", backend="identity")
+                    _eq(chk, f"{lab}: logweight == log(w_old + w_new)", [out.logweight[()]], [sp.log(w(cs.logweight[()]) + w(ns.logweight[()]))])
+                    L, R = ((cs.left, ns.right) if go_right else (ns.left, cs.right))
+                    ok = all(a == b for a, b in zip(_fl(out.left) + _fl(out.right), _fl(L) + _fl(R)))
+                    chk.obligation(f"{lab}: the merged tree spans from the outer left end to the outer right end", "discharged" if ok else "refuted", backend="identity")
+                    turn_want = sp.And(sum(R.momentum[i] * (R.position[i] - L.position[i]) for i in range(n)) < 0, sum(L.momentum[i] * (L.position[i] - R.position[i]) for i in range(n)) < 0)
+                    got_turn = sp.sympify(out.turning[()])
+                    ok = sp.simplify_logic(sp.Equivalent(got_turn, turn_want)) is sp.true or _same_truth(got_turn, turn_want, chk.seed)
+                    chk.obligation(f"{lab}: turning == the U-turn criterion of the merged end points", "discharged" if ok else "refuted", backend="sympy")
+                    ok = int(out.depth) == 2 and bool(out.diverging) == (div_c or div_n)
+                    chk.obligation(f"{lab}: depth + 1, diverging == either subtree diverging", "discharged" if ok else "refuted", backend="identity")
+                    _eq(chk, f"{lab}: cumulative acceptance is additive", [out.cumulative_acceptance[()]], [cs.cumulative_acceptance[()] + ns.cumulative_acceptance[()]])
+    # add_single_qp_to_tree with an uninterpreted potential and the real kinetic energy
+    V = opaque("potential", scalar_out=True)
+    for seed in (5,):
+        key = jax.random.PRNGKey(seed)
+        u0 = float(jax.random.uniform(key, (), dtype=jnp.float64))
+        te, ts = _sym_tree(hmc, jnp, "t", n, 1)
+        qe = hmc.QP(jnp.ones(n) * .7, jnp.ones(n) * -.2)
+        qs = hmc.QP(symbols((n,), "q", real=True), symbols((n,), "p", real=True))
+        im = symbols((), "im", positive=True)
+        h0 = symbols((), "h0", real=True)
+        dmax = symbols((), "dmax", positive=True)
+
+        def kin(inv_mass, p):
+            return 0.5 * jnp.sum(inv_mass * p * p)
+        for go_right in (True, False):
+            lab = f"nuts_helpers: add_single_qp_to_tree(go_right={go_right})"
+            jaxsym.Shadow.point, jaxsym.Shadow.pc = None, []
+            out, _ = sym_call(lambda k, t, qp, m, e0, dm: hmc.add_single_qp_to_tree(k, t, qp, go_right, V, kin, m, e0, dm),
+                              (key, te, qe, jnp.asarray(1.3), jnp.asarray(-0.4), jnp.asarray(1000.)), (key, ts, qs, im, h0, dmax))
+            negE = -(sp.Function("potential_0")(*list(qs.position)) + sp.Rational(1, 2) * im[()] * sum(x * x for x in qs.momentum))
+            lw = sp.sympify(out.logweight[()])
+            fn = [f for f in lw.atoms(sp.Function) if f.func.__name__.startswith("potential")]
+            # the uninterpreted potential value V(q) is treated as one real symbol: the identities hold for every value it can take
+            vq = sp.Symbol("Vq", real=True)
+            negE = -(vq + sp.Rational(1, 2) * im[()] * sum(x * x for x in qs.momentum))
+            ok = len(fn) == 1 and list(fn[0].args) == list(qs.position)
+            chk.obligation(f"{lab}: the potential is evaluated once, at the new point's position", "discharged" if ok else "refuted", backend="identity", detail=str(fn)[:200])
+            lw = lw.subs(fn[0], vq) if fn else lw
+            P = _transition_probability(chk, lab, sp.sympify(out.proposal_candidate.position[0]).subs(fn[0], vq) if fn else out.proposal_candidate.position[0], u0,
+                                        ts.proposal_candidate.position[0], qs.position[0])
+            if P is not None:
+                _eq(chk, f"{lab}: P(keep the tree's candidate) == w_tree / (w_tree + e^-H(new point))", [P], [w(ts.logweight[()]) / (w(ts.logweight[()]) + w(negE))])
+            _eq(chk, f"{lab}: logweight == log(w_tree + e^-H(new point))", [lw], [sp.log(w(ts.logweight[()]) + w(negE))])
+            L, R = ((ts.left, qs) if go_right else (qs, ts.right))
+            ok = all(a == b for a, b in zip(_fl(out.left) + _fl(out.right), _fl(L) + _fl(R)))
+            chk.obligation(f"{lab}: the new point becomes the outer end on the side the tree grows", "discharged" if ok else "refuted", backend="identity")
+            dv = sp.sympify(out.diverging[()])
+            want = sp.Abs(negE - h0[()]) > dmax[()]
+            if fn:
+                dv = dv.subs(fn[0], vq)
+            ok = sp.simplify_logic(sp.Equivalent(dv, want)) is sp.true or _same_truth(dv, want, chk.seed)
+            chk.obligation(f"{lab}: diverging == |H(new point) - H(initial)| > max_energy_difference", "discharged" if ok else "refuted", backend="sympy", detail=str(dv)[:200])
+    # U-turn criterion and trailing-ones counter
+    qs_l = hmc.QP(symbols((n,), "ql", real=True), symbols((n,), "pl", real=True))
+    qs_r = hmc.QP(symbols((n,), "qr", real=True), symbols((n,), "pr", real=True))
+    out, _ = sym_call(hmc.is_euclidean_uturn, (hmc.QP(jnp.ones(n), jnp.ones(n)), hmc.QP(jnp.ones(n) * 2, jnp.ones(n))), (qs_l, qs_r))
+    want = sp.And(sum(qs_r.momentum[i] * (qs_r.position[i] - qs_l.position[i]) for i in range(n)) < 0, sum(qs_l.momentum[i] * (qs_l.position[i] - qs_r.position[i]) for i in range(n)) < 0)
+    got = sp.sympify(np.asarray(out, dtype=object)[()])
+    ok = sp.simplify_logic(sp.Equivalent(got, want)) is sp.true or _same_truth(got, want, chk.seed)
+    chk.obligation("nuts_helpers: is_euclidean_uturn == (p_right . (q_right - q_left) < 0) and (p_left . (q_left - q_right) < 0)", "discharged" if ok else "refuted", backend="sympy")
+    fails = [k for k in list(range(0, 130)) + [2 ** 20 - 1, 2 ** 31 - 1, 2 ** 40 + 7] if int(hmc.count_trailing_ones(jnp.asarray(k, dtype=jnp.uint64))) != (len(bin(k)) - len(bin(k).rstrip("1")))]
+    chk.bounded("count_trailing_ones against the binary representation", bound="n = 0..129 and three large values", cases=133, nontrivial=133,
+                failures=[dict(case=f"count_trailing_ones({k}) is wrong", detail="") for k in fails], kind="B-runtime")
+
+
+def _same_truth(a, b, seed, n=200):
+    """two Boolean expressions in real symbols agree at n random rational points (fallback when sympy cannot prove equivalence)"""
+    import random
+    rnd = random.Random(seed)
+    syms = sorted(a.free_symbols | b.free_symbols, key=str)
+    seen = set()
+    for _ in range(n):
+        pt = {s: sp.Rational(rnd.randint(-300, 300), 100) for s in syms}
+        va, vb = bool(a.subs(pt)), bool(b.subs(pt))
+        if va != vb:
+            return False
+        seen.add(va)
+    return len(seen) == 2          # both truth values were exercised
+
+
+SECTIONS = [sec_leapfrog, sec_acc_rej, sec_acc_rej_native, sec_sampler, sec_nuts_helpers]
